@@ -44,14 +44,18 @@ Section Loop.
     sXi : list nat; srj : list nat;            (* indices of the pairs in the current batch *)
     sq : qstate;                               (* attr_, z, attributions *)
     srefs : list R;                            (* references_ *)
-    strace : list (list (EX * R)) }.           (* the batches handed to the model, in order *)
+    (* per flush: Xi, rj (the index lists, hence the reference look-ups / reference-function
+       calls made: one per pair, for shuffle rj[k] of example Xi[k]) and the batch of
+       (example, reference) rows handed to the model, in order *)
+    strace : list (list nat * list nat * list (EX * R)) }.
 
   Definition init : state := St [] [] ([], 0%nat, []) [] [].
 
   Definition flush (ns : nat) (X : list EX) (s : state) (Xi rj : list nat) : state :=
     let batch := map2 (fun e j => let ex := nth e X dex in (ex, refsrc ex j)) Xi rj in
     let '(q, z, out) := sq s in
-    St [] [] (drain_t ns X (q ++ attr batch, z, out)) (srefs s ++ map snd batch) (strace s ++ [batch]).
+    St [] [] (drain_t ns X (q ++ attr batch, z, out)) (srefs s ++ map snd batch)
+       (strace s ++ [(Xi, rj, batch)]).
 
   Definition step (ns : nat) (b : Z) (X : list EX) (total : nat) (s : state) (i : nat) : state :=
     let Xi := sXi s ++ [(i / ns)%nat] in
@@ -66,7 +70,7 @@ Section Loop.
   (* torch.stack(attributions) raises on an empty list (n = 0 or n_shuffles = 0);
      references_ is reshaped to (n, n_shuffles, ...) *)
   Definition dls_model (ret_refs : bool) (ns : nat) (b : Z) (X : list EX)
-    : res (list W * option (list (list R))) * list (list (EX * R)) :=
+    : res (list W * option (list (list R))) * list (list nat * list nat * list (EX * R)) :=
     let s := run_loop ns b X (length X * ns) in
     let '(_, _, out) := sq s in
     match out with
@@ -95,11 +99,12 @@ Fixpoint imap_from {A B} (i : nat) (f : nat -> A -> B) (l : list A) : list B :=
   | x :: xs => f i x :: imap_from (S i) f xs
   end.
 
-(* the harness's deterministic tagged reference function, for one row with seed s:
-   ref[c, l] = (3 * x[c, l] + s + c + 2 * l) mod 8 *)
+(* the harness's deterministic tagged reference functions, called on ONE row with seed s:
+   ref[c, l] = (3 * x[c, l] + s + c + 2 * l) mod 4 + 4
+   (values 4..7, examples hold 0..3: a reference entry never equals the example's entry) *)
 Definition tagref (x : tensor) (s : Z) : tensor :=
   imap_from 0 (fun l col =>
-    imap_from 0 (fun c v => (3 * v + s + Z.of_nat c + 2 * Z.of_nat l) mod 8) col) x.
+    imap_from 0 (fun c v => (3 * v + s + Z.of_nat c + 2 * Z.of_nat l) mod 4 + 4) col) x.
 
 (* seed = None: references is the tensor whose rows travel with the example;
    seed = Some s: references(X[e:e+1], n=1, random_state = s + j) *)
@@ -112,24 +117,27 @@ Definition refsrcE (seed : option Z) (ex : exE) (j : nat) : tensor :=
 Definition sumZ (l : list Z) : Z := fold_right Z.add 0 l.
 Definition dot (a b : list Z) : Z := sumZ (map2 Z.mul a b).
 
-(* the multipliers the harness's registered op returns for an (example, reference) row:
-   60 * (x + 4 * ref + 32 * (sum of the example's arg entries)) *)
-Definition mult (ex : exE) (r : tensor) : tensor :=
+(* the multipliers reaching an (example, reference) row: the harness's registered op returns
+   60 * (x + 4 * ref + 32 * (sum of the example's arg entries)) times the gradient arriving from
+   the ReLU behind it, which is k = 1 under the built-in rescale rule (inputs are non-negative
+   and example and reference entries always differ) and k = 2 when the call overrides the
+   ReLU rule through additional_nonlinear_ops with "twice the incoming gradient" *)
+Definition mult (k : Z) (ex : exE) (r : tensor) : tensor :=
   let t := sumZ (map sumZ (e_args ex)) in
-  tmap2 (fun xv rv => 60 * (xv + 4 * rv + 32 * t)) (e_x ex) r.
+  tmap2 (fun xv rv => k * (60 * (xv + 4 * rv + 32 * t))) (e_x ex) r.
 
 (* hypothetical_attributions: projected[i, l] = sum_c (delta(c, i) - ref[c, l]) * m[c, l] *)
 Definition project (r m : tensor) : tensor :=
   map2 (fun rc mc => let d := dot rc mc in map (fun mi => mi - d) mc) r m.
 
-Definition pairE (md : mode) (ex : exE) (r : tensor) : tensor :=
+Definition pairE (md : mode) (k : Z) (ex : exE) (r : tensor) : tensor :=
   match md with
-  | Raw => mult ex r
-  | _ => project r (mult ex r)
+  | Raw => mult k ex r
+  | _ => project r (mult k ex r)
   end.
 
-Definition attrE (md : mode) (batch : list (exE * tensor)) : list tensor :=
-  map (fun p => pairE md (fst p) (snd p)) batch.
+Definition attrE (md : mode) (k : Z) (batch : list (exE * tensor)) : list tensor :=
+  map (fun p => pairE md k (fst p) (snd p)) batch.
 
 (* torch.stack(vs).mean(dim=0): exact here because every entry is a multiple of 60 and
    n_shuffles <= 6 in the generated cases (the harness flags non-integral outputs) *)
@@ -153,25 +161,27 @@ Definition nsE (seed : option Z) (ns_param : nat) (X : list exE) : nat :=
   | None => length (e_refs (hd dexE X))
   end.
 
-Definition dlsE (md : mode) (seed : option Z) (ns_param : nat) (ret_refs : bool) (b : Z) (X : list exE) :=
-  dls_model dexE (refsrcE seed) (attrE md) (aggE md) ret_refs (nsE seed ns_param X) b X.
+Definition dlsE (md : mode) (k : Z) (seed : option Z) (ns_param : nat) (ret_refs : bool) (b : Z) (X : list exE) :=
+  dls_model dexE (refsrcE seed) (attrE md k) (aggE md) ret_refs (nsE seed ns_param X) b X.
 
 (* ================= instance 2: a real network with the real dinucleotide_shuffle =========== *)
 
 (* The per-pair floating-point values are torch's; the loop is run symbolically: a pair value
    is (example id, the reference it was computed against), and a block is accepted only if it
    consists of exactly this example's pairs against exactly its references in shuffle order --
-   then the example's value in the reference run (r_val) is returned, otherwise the empty list. *)
-Record exR := ExR { r_id : nat; r_val : list Q; r_refs : list (list Z) }.
+   then the example's value in the oracle run is returned, otherwise the empty list.  There is
+   one oracle value per configuration class of the call (class 0: built-in rules; class 1: the
+   call overrides the rule of the network's non-linearity through additional_nonlinear_ops). *)
+Record exR := ExR { r_id : nat; r_vals : list (list Q); r_refs : list (list Z) }.
 Definition dexR : exR := ExR 0 [] [].
 
 Definition refsrcR (ex : exR) (j : nat) : list Z := nth j (r_refs ex) [].
 Definition attrR (batch : list (exR * list Z)) : list (nat * list Z) :=
   map (fun p => (r_id (fst p), snd p)) batch.
-Definition aggR (ex : exR) (vs : list (nat * list Z)) : list Q :=
+Definition aggR (cls : nat) (ex : exR) (vs : list (nat * list Z)) : list Q :=
   if list_eqb Nat.eqb (map fst vs) (map (fun _ => r_id ex) (r_refs ex)) &&
      list_eqb (list_eqb Z.eqb) (map snd vs) (r_refs ex)
-  then r_val ex else [].
+  then nth cls (r_vals ex) [] else [].
 
-Definition dlsR (ns : nat) (ret_refs : bool) (b : Z) (X : list exR) :=
-  dls_model dexR refsrcR attrR aggR ret_refs ns b X.
+Definition dlsR (cls ns : nat) (ret_refs : bool) (b : Z) (X : list exR) :=
+  dls_model dexR refsrcR attrR (aggR cls) ret_refs ns b X.
